@@ -372,6 +372,57 @@ impl C11 {
         }
     }
 
+    /// path-based entry points: Writer::to_file / Reader::from_file, the same path written twice (long, then short)
+    fn file_case(&self, ctx: &mut Ctx, rng: &mut Rng, recs: Vec<Rec>) {
+        let dir = std::env::temp_dir().join(format!("biomon-c11-{}-{}", std::process::id(), ctx.index));
+        let _ = std::fs::create_dir_all(&dir);
+        let short: Vec<Rec> = recs[..1.max(recs.len() / 3)].to_vec();
+        for fastq_fmt in [true, false] {
+            let path = dir.join(if fastq_fmt { "x.fastq" } else { "x.fasta" });
+            for (round, list) in [(0, &recs), (1, &short), (2, &recs)] {
+                let lst = list.clone();
+                let p2 = path.clone();
+                let cap = *rng.pick(&[1usize, 4, 8192]);
+                let r = guard(move || -> Result<Vec<Rec>, String> {
+                    if fastq_fmt {
+                        let mut w = if round == 1 { fastq::Writer::to_file_with_capacity(cap, &p2) } else { fastq::Writer::to_file(&p2) }.map_err(|e| e.to_string())?;
+                        for r in &lst {
+                            w.write(&r.id, r.desc.as_deref(), &r.seq, &r.qual).map_err(|e| e.to_string())?;
+                        }
+                        w.flush().map_err(|e| e.to_string())?;
+                        drop(w);
+                        let rd = fastq::Reader::from_file(&p2).map_err(|e| e.to_string())?;
+                        rd.records().map(|r| r.map(|r| Rec { id: r.id().to_string(), desc: r.desc().map(|s| s.to_string()), seq: r.seq().to_vec(), qual: r.qual().to_vec() }).map_err(|e| e.to_string())).collect()
+                    } else {
+                        let mut w = if round == 1 { fasta::Writer::to_file_with_capacity(cap, &p2) } else { fasta::Writer::to_file(&p2) }.map_err(|e| e.to_string())?;
+                        for r in &lst {
+                            w.write(&r.id, r.desc.as_deref(), &r.seq).map_err(|e| e.to_string())?;
+                        }
+                        w.flush().map_err(|e| e.to_string())?;
+                        drop(w);
+                        let rd = if round == 1 { fasta::Reader::from_file_with_capacity(cap, &p2) } else { fasta::Reader::from_file(&p2) }.map_err(|e| e.to_string())?;
+                        rd.records().map(|r| r.map(|r| Rec { id: r.id().to_string(), desc: r.desc().map(|s| s.to_string()), seq: r.seq().to_vec(), qual: vec![] }).map_err(|e| e.to_string())).collect()
+                    }
+                });
+                ctx.eval(list.len() as u64);
+                let exp: Vec<Rec> = if fastq_fmt { list.clone() } else { list.iter().map(|r| Rec { qual: vec![], ..r.clone() }).collect() };
+                let got = match r {
+                    Ok(Ok(v)) => Ok(Ok(v)),
+                    Ok(Err(e)) => Ok(Err(e)),
+                    Err(p) => Err(p),
+                };
+                let fmt = if fastq_fmt { "fastq" } else { "fasta" };
+                if !self.compare(ctx, "file-path-api", fmt, &exp, got, b"<file on disk>", &format!("to_file/from_file, write #{} to the same path", round)) {
+                    let _ = std::fs::remove_dir_all(&dir);
+                    return;
+                }
+            }
+        }
+        let _ = std::fs::remove_dir_all(&dir);
+        ctx.shape(true, &("C11", "file", recs.len().min(4)));
+        ctx.count("file_path_cases", 1);
+    }
+
     fn truncation_case(&self, ctx: &mut Ctx, rng: &mut Rng, recs: Vec<Rec>) {
         let fq = write_fastq(&recs).unwrap_or_default();
         let frecs: Vec<Rec> = recs.iter().map(|r| Rec { qual: vec![], ..r.clone() }).collect();
@@ -469,7 +520,18 @@ impl C11 {
 
     fn junk_case(&self, ctx: &mut Ctx, rng: &mut Rng) {
         let n = rng.range(0, ctx.by_tier(60, 200, 1000));
-        let mut bytes: Vec<u8> = (0..n).map(|_| *rng.pick(b"@>+\n\r AC\xff\x00\t;")).collect();
+        let mut bytes: Vec<u8> = if rng.chance(1, 3) {
+            // tokens incl. multi-byte Unicode whitespace (valid UTF-8) right after header markers
+            let toks: [&[u8]; 16] = [b">", b"@", b"+", b"\n", b"\r\n", b" ", b"a", b"AC", "\u{a0}".as_bytes(), "\u{2003}".as_bytes(), "\u{85}".as_bytes(), "\u{3000}".as_bytes(), "\u{e9}".as_bytes(), b"\t", b"!", b"b"];
+            let mut v = vec![];
+            while v.len() < n {
+                let t: &[u8] = toks[rng.usize(toks.len())];
+                v.extend_from_slice(t);
+            }
+            v
+        } else {
+            (0..n).map(|_| *rng.pick(b"@>+\n\r AC\xff\x00\t;")).collect()
+        };
         let mutated = rng.chance(1, 2);
         if mutated {
             let (recs, _) = gen_records(rng, rng.clone().range(1, 4), 30, false);
@@ -536,8 +598,8 @@ impl Monitor for C11 {
          '!'..'~' with '@' and '+' forced as first quality) written by the FASTQ writer (write and write_record) and the FASTA writer (linewrap none/1/2/3/7/60), read back through BufReader capacities \
          {1,2,3,5,16,8192} x read() fragment sizes {1,2,3,7,64,unbounded} (records() iterator and read() into one reused Record), after CRLF conversion, after re-wrapping by the harness's own layout code (widths none/1/2/5/60/61, with or \
          without final newline), and through EitherRecords/get_kind/get_kind_seek; records must be identical. truncation case = every cut offset of files <= 400 bytes (200 random \
-         offsets otherwise): no panic, at most len+2 items, every FASTQ item that is Ok and passes check() is an original record in original order. junk case = random bytes over a \
-         hostile alphabet or byte-mutated valid files: no panic, bounded item count. shape = (kind, #records, wrap, description classes, length class) / (format, cut position class) / (junk class)"
+         offsets otherwise): no panic, at most len+2 items, every FASTQ item that is Ok and passes check() is an original record in original order. file case = the path-based entry points (to_file, to_file_with_capacity, from_file, from_file_with_capacity) writing a long, a short and again a long list to the same path; junk case = random bytes over a \
+         hostile alphabet, token soups with multi-byte Unicode whitespace after header markers, or byte-mutated valid files: no panic, bounded item count. shape = (kind, #records, wrap, description classes, length class) / (format, cut position class) / (junk class)"
     }
     fn run_case(&mut self, ctx: &mut Ctx, g: u64, rng: &mut Rng) {
         if g < N_DIRECTED {
@@ -565,6 +627,10 @@ impl Monitor for C11 {
                     self.roundtrip_case(ctx, rng, recs.clone(), dc);
                     self.truncation_case(ctx, rng, recs);
                 }
+                8 => {
+                    let (recs, _) = gen_records(rng, 5, 40, false);
+                    self.file_case(ctx, rng, recs);
+                }
                 7 => {
                     // long sequences crossing BufReader capacities
                     let (recs, dc) = gen_records(rng, 2, ctx.by_tier(300, 9000, 40000), false);
@@ -581,6 +647,10 @@ impl Monitor for C11 {
                 self.roundtrip_case(ctx, rng, recs, dc);
             }
             6 | 7 => {
+                if rng.chance(1, 40) && !ctx.tiny() {
+                    let (recs, _) = gen_records(rng, rng.clone().range(2, 6), 60, false);
+                    return self.file_case(ctx, rng, recs);
+                }
                 let (recs, _) = gen_records(rng, rng.clone().range(1, 4), 25, false);
                 self.truncation_case(ctx, rng, recs);
             }
